@@ -17,7 +17,7 @@ ASSUME = ['names are C++ identifiers; type, default-value, qualifier and initial
           '"any composition is accepted by a C++ compiler" has no Gallina counterpart: validated by compiling sampled compositions (partial)']
 
 IDS = ['My', 'Data', 'std', 'string', 'T1', '_x', 'Hal', 'IHeater', 'int', 'Z9']
-NAMES = ['Calculate', 'f', 'Get_1', 'operatorX', 'm_value', 'x', 'MyToaster']
+NAMES = ['Calculate', 'f', 'Get_1', 'operatorX', 'm_value', 'x', 'MyToaster', 'operator==', 'operator()', 'operator[]', 'operator<<', 'operator bool', '~X', 'pass', 'lambda']   # any C++ function name, operators among them
 
 
 def r_fqn(rng, allow_empty=True):
